@@ -53,12 +53,18 @@ def _worker(args):
             warnings.simplefilter("ignore")
             res = mod.run_case(case)
     except BaseException as e:  # harness or library crash outside the oracle
+        frames = traceback.extract_tb(e.__traceback__)
+        in_library = [f for f in frames if "/pymablock/" in f.filename and "/pmbverif/" not in f.filename]
         res = {
             "violations": [
                 {
-                    "what": f"unhandled {type(e).__name__}: {str(e)[:300]}",
+                    # an exception that passed through library code in a place where the check expects none
+                    # is a finding about the library; one raised purely inside the harness is a harness error
+                    "what": (f"library raised {type(e).__name__} in {in_library[-1].name}: {str(e)[:200]}" if in_library
+                             else f"unhandled {type(e).__name__}: {str(e)[:300]}"),
+                    "key": None,
                     "detail": traceback.format_exc()[-1500:],
-                    "harness_error": True,
+                    "harness_error": not in_library,
                 }
             ],
             "nontrivial": False,
